@@ -187,7 +187,7 @@ impl Family for Permutations {
 // ---------------------------------------------------------------------------------------------------------------
 
 fn shim_path() -> String {
-    std::env::var("VERIF_HASH_SHIM").unwrap_or_else(|_| "/verif/.build/libhashseed.so".to_string())
+    std::env::var("VERIF_HASH_SHIM").unwrap_or_else(|_| format!("{}/.build/libhashseed.so", std::env::var("VERIF_ROOT").unwrap_or_else(|_| "/verif".to_string())))
 }
 
 const PROGRAMS: [[usize; 3]; 4] = [[0, 1, 2], [5, 6, 4], [0, 2, 8], [0, 13, 1]];
